@@ -248,6 +248,10 @@ class State:
     def assume(self, f):
         if z3.is_true(f):
             return
+        if z3.is_and(f):
+            for c in f.children():
+                self.assume(c)
+            return
         self.pc.append(f)
 
     def alloc(self, obj):
@@ -353,3 +357,32 @@ def sum_axioms():
         z3.ForAll([A, lo, hi], z3.Implies(hi > lo, SUM(A, lo, hi) == SUM(A, lo, hi - 1) + A[hi - 1]),
                   patterns=[SUM(A, lo, hi)]),
     ]
+
+
+def forall_pat(vs, body, patterns):
+    """ForAll with explicit patterns when z3 accepts them, auto-patterns otherwise"""
+    try:
+        return z3.ForAll(vs, body, patterns=patterns)
+    except z3.Z3Exception:
+        return z3.ForAll(vs, body)
+
+
+_KCANON = z3.Int("k!canon")
+_NAMED = {}
+
+
+def named_array(elem_real):
+    """z3 Array term equal to `lambda k: elem_real(k)`: returns (A, defining axiom or None).
+    Structurally equal definitions share one constant, so equal sequences give equal SUM terms."""
+    body = z3.simplify(elem_real(_KCANON))
+    if z3.is_app(body) and body.decl().kind() == z3.Z3_OP_SELECT:
+        arr, idx = body.children()
+        if idx.get_id() == _KCANON.get_id() and z3.is_const(arr) and arr.sort() == ARR:
+            return arr, None
+    key = body.sexpr()
+    if key not in _NAMED:
+        A = z3.Const(fresh_name("sumarg"), ARR)
+        k = z3.Int(fresh_name("k"))
+        ax = z3.ForAll([k], A[k] == z3.substitute(body, (_KCANON, k)), patterns=[A[k]])
+        _NAMED[key] = (A, ax)
+    return _NAMED[key]
